@@ -11,11 +11,16 @@ SHARD = 40
 RULE = ("one case = (recorded program P, replayed program P') where P' is P or a behavioural edit of P: changed output argument, "
         "dropped / added / duplicated / reordered output call, changed final result, raise instead of return; P makes 1-14 calls "
         "per output alias (two-digit ordinals in a fifth of the cases) over 1-3 aliases, instance and static outputs, outputs "
-        "with data handlers, positional and keyword arguments, values from the faithful domain; non-trivial = an edited pair or "
-        "more than nine calls of an alias; distinct = distinct (P, P')")
+        "with data handlers (preparing a container, an int digest or None), positional and keyword arguments, values from the "
+        "faithful domain; non-trivial = an edited pair or more than nine calls of an alias; distinct = distinct (P, P'); plus "
+        "(implementation only, always runs) histories of operations that end in exceptions of ONE type whose instances carry "
+        "different data and differ in whether they can be encoded (unencodable instance before / between / after ordinary ones, "
+        "on the recording and the replaying side, a subclass, a new recorder in between, three cassettes)")
 ASSUMPTIONS = ["a failing output data handler during replay silently drops the entry (handlers succeed here; faults are C04's)",
                "single-threaded operations"]
-TRUSTED = ["harness-side journal of the output calls the generated code makes (trace 'begin' events outside interceptions)"]
+TRUSTED = ["harness-side journal of the output calls the generated code makes (trace 'begin' events outside interceptions)",
+           "exception-history stream: what an exception instance carries (attributes) is outside the Coq model (an exception is "
+           "its type name there): direct predicate only"]
 THEOREMS = ["C03_okey_injective", "C03_playback_outputs_exact", "C03_recorded_outputs_exact", "C03_entry_is_nth_call",
             "C03_diff_localised", "C03_key_kinds_disjoint"]
 
@@ -380,7 +385,8 @@ MANIFEST = dict(
          "(outputs_diff_localised); output, result and input entries never collide. Tie: (P, P') pairs with every edit kind "
          "and up to 14 calls per alias on the real recorder, recorded and playback outputs compared with the model. Direct "
          "predicate: both maps equal what the program text sends (harness-side), and their diff is exactly at the edited "
-         "entries.",
+         "entries. Round 6: output handlers whose prepared value is an int / None (model + direct); the operation entry of a raised "
+         "exception is that exception - type and attributes - whenever the instance encodes, whatever was raised before (direct).",
     note="Trusted: Coq kernel + vm_compute, hand-written model, correspondence harness, harness-side expectation from the "
          "program text. A failing output handler during replay drops the entry (stated limit).",
     technique="Coq proof (structural induction with per-alias counter algebra; string injectivity of the key format) + "
